@@ -95,3 +95,32 @@ pub fn c08(kind: &str, req: &Value) -> Result<Value, String> {
         _ => Err(format!("unknown c08 op {kind}")),
     }
 }
+
+
+/// C07: the exposed topological sort on a concrete graph (repeated: every call gets fresh hasher seeds)
+pub fn toposort(req: &Value) -> Result<Value, String> {
+    use std::collections::{HashMap, HashSet};
+    use ruma_common::{MilliSecondsSinceUnixEpoch, OwnedEventId};
+    let nodes = req["nodes"].as_array().ok_or("nodes")?;
+    let rep = req["repeat"].as_u64().unwrap_or(4);
+    let mut first: Option<Vec<String>> = None;
+    let mut stable = true;
+    for _ in 0..rep {
+        let mut graph: HashMap<OwnedEventId, HashSet<OwnedEventId>> = HashMap::new();
+        let mut keys: HashMap<OwnedEventId, (js_int::Int, MilliSecondsSinceUnixEpoch)> = HashMap::new();
+        for n in nodes {
+            let id = OwnedEventId::try_from(n["id"].as_str().unwrap_or("")).map_err(|e| e.to_string())?;
+            let mut deps = HashSet::new();
+            for d in n["deps"].as_array().cloned().unwrap_or_default() {
+                deps.insert(OwnedEventId::try_from(d.as_str().unwrap_or("")).map_err(|e| e.to_string())?);
+            }
+            graph.insert(id.clone(), deps);
+            keys.insert(id, (js_int::Int::try_from(n["pl"].as_i64().unwrap_or(0)).map_err(|e| e.to_string())?,
+                             MilliSecondsSinceUnixEpoch(js_int::UInt::try_from(n["ts"].as_u64().unwrap_or(0)).map_err(|e| e.to_string())?)));
+        }
+        let r = ruma_state_res::lexicographical_topological_sort(&graph, |id| Ok(keys[id]));
+        let order: Vec<String> = match r { Ok(v) => v.iter().map(|x| x.as_str().to_owned()).collect(), Err(e) => return Ok(json!({"r": "err", "e": e.to_string()})) };
+        match &first { None => first = Some(order), Some(f) => if *f != order { stable = false; } }
+    }
+    Ok(json!({"r": "ok", "order": first, "stable": stable}))
+}
